@@ -19,7 +19,7 @@ pub fn meta() -> Meta {
     Meta {
         id: "C09",
         level: "exploration",
-        rule: "for all 30 valid k x both strand modes x input families {generic pool; all split k-mers fit in 64 bits (k>=33: records of length k starting with k-33 A's, verified by the model to be < 2^64); mixed fitting + non-fitting samples; a 3 kb genome (thousands of k-mers)}: `ska build` then every subcommand on the saved file through the CLI — nk --full-info (incl. k_bits), align (plain and with every flag), map aln+vcf, distance (plain and with its flags), weed (sequence file, --reverse, and the filter flags), delete, merge with a second file in both orders (fitting/non-fitting in both orders; a second file reduced by a filter; a second file emptied of all k-mers) and the empty-after-filter file — each compared with what the model derives from the source sequences; every stored field is read back with the independent mirror decoder. Non-trivial = a CLI command on a non-empty file; distinct outcomes = distinct expected outputs. At k in {5,7,17,31,33,35,63} (thorough: every k) the whole family is run a second time through the dev-profile build of the CLI (debug assertions and arithmetic overflow checks on): same verdict required.".into(),
+        rule: "for all 30 valid k x both strand modes x input families {generic pool; all split k-mers fit in 64 bits (k>=33: records of length k starting with k-33 A's, verified by the model to be < 2^64); mixed fitting + non-fitting samples; a 3 kb genome (thousands of k-mers)}: `ska build` then every subcommand on the saved file through the CLI — nk --full-info (incl. k_bits), align (plain and with every flag), map aln+vcf, distance (plain and with its flags), weed (sequence file, --reverse, and the filter flags), delete, merge with a second file in both orders (fitting/non-fitting in both orders; a second file reduced by a filter; a second file emptied of all k-mers) and the empty-after-filter file — each compared with what the model derives from the source sequences; every stored field is read back with the independent mirror decoder. Non-trivial = a CLI command on a non-empty file; distinct outcomes = distinct expected outputs. At k in {5,7,17,31,33,35,63} (thorough: every k) the whole family is run a second time through the dev-profile build of the CLI (debug assertions and arithmetic overflow checks on): same verdict required. The saved file is additionally read under names that do not end in .skf (`cleaned`, `x.skf.bak`) by nk, align, map, distance, merge and delete, and align/map/distance are run with -o: same results.".into(),
         assumptions: vec!["the model stands in for 'the in-memory data it was saved from' (their agreement is C01/C06/C07/C08/C13/C14's subject)".into()],
         exhaustive_when_uncapped: true,
     }
@@ -438,6 +438,33 @@ fn check_family(rep: &mut Report, k: usize, rc: bool, fam: &Fam, dir: &str) -> V
             }
             Ok(())
         })());
+    }
+    // writing subcommands reading the file under the suffix-less name `cleaned` (copied above)
+    {
+        let _ = std::fs::remove_file(format!("{dir}/ma.skf"));
+        let o = cli::run(&["merge", "cleaned", "y.skf", "-o", "ma"], dir, None);
+        step(rep, "merge cleaned y.skf", (|| {
+            if o.code != 0 {
+                return Err(format!("exit {} {}", o.code, tail(&o)));
+            }
+            if FileState::read(&format!("{dir}/ma.skf"))?.table != t.merge(&to) {
+                return Err("merged table differs from the model".into());
+            }
+            Ok(())
+        })());
+        if names.len() >= 2 {
+            let _ = std::fs::remove_file(format!("{dir}/da.skf"));
+            let o = cli::run(&["delete", "-s", "cleaned", "-o", "da", &names[0]], dir, None);
+            step(rep, "delete -s cleaned", (|| {
+                if o.code != 0 {
+                    return Err(format!("exit {} {}", o.code, tail(&o)));
+                }
+                if FileState::read(&format!("{dir}/da.skf"))?.table != t.delete(&[names[0].clone()]) {
+                    return Err("table after delete differs from the model".into());
+                }
+                Ok(())
+            })());
+        }
     }
     // merging with a file that was emptied by a filter, in both orders
     let oe = cli::run(&["weed", "y.skf", "-o", "ey.skf", "--min-freq", "1", "--filter", "no-ambig", "--ambig-mask"], dir, None);
